@@ -297,13 +297,40 @@ def run(ctx):
             except (KeyError, ValueError):
                 ctx.count('force-history-skipped')
         # ---- oracle 4 (a share of the cases): the same list in name mode — members must be the standalone name-mode chains
-        if i % 4 == 0 and not ctxs:
+        if i % 2 == 0 and not ctxs:
             try:
                 mcn = MultiChain([pl.make_config(b, root / f'dn{i}', main=m) for m in mains], parameter_mode=False)
-            except (ValueError, KeyError, AssertionError):
+            except (ValueError, KeyError, AssertionError, RecursionError):
                 mcn = None
             if mcn is not None:
                 ctx.count('name-mode-probe')
+                # ---- correspondence with the Lean model of name-mode construction (BuildNM.buildMulti): tasks, objects shared by
+                #      (task name, config file), parameters, storage names, inputs
+                nchains = [mcn[pl.make_config(b, root / f'dn{i}', main=m).name] for m in mains]
+                nm_mo = ctx.model.one({**builder.encode(spec, b, mains=[(m, None) for m in mains]), 'op': 'multi_nm'})
+                nobjs, nimpl = {}, []
+                for ch in nchains:
+                    nimpl.append([{'full': nme, 'key': t.name_for_persistence, 'obj': nobjs.setdefault(id(t), len(nobjs)),
+                                   'params': [[p.name, pl.to_model(p._value)] for p in t.parameters.values()],
+                                   'inputs': [[k, {'obj': nobjs.setdefault(id(v), len(nobjs))} if isinstance(v, Task) else {'default': pl.to_model(v)}]
+                                              for k, v in t.input_tasks.items()]} for nme, t in ch.tasks.items()])
+                if 'ok' not in nm_mo:
+                    ctx.diverge('multichain-name-mode:error-vs-chains', full_case, 'chains', nm_mo.get('error'))
+                else:
+                    ren, nmodel, all_names = {}, [], {}
+                    for ch in nm_mo['ok']:
+                        for t in ch:
+                            all_names.setdefault(t['full'], t['obj'])
+                    for ch in nm_mo['ok']:
+                        by_name = {**all_names, **{t['full']: t['obj'] for t in ch}}
+                        d = []
+                        for t in ch:
+                            o = ren.setdefault(t['obj'], len(ren))
+                            ins = [[k, {'obj': ren.setdefault(by_name.get(v['task'], -1), len(ren))} if 'task' in v else v] for k, v in t['inputs']]
+                            d.append({'full': t['full'], 'key': t['key'], 'obj': o, 'params': t['params'], 'inputs': ins})
+                        nmodel.append(d)
+                    if nimpl != nmodel:
+                        ctx.diverge('multichain-name-mode:tasks-and-sharing', full_case, nimpl, nmodel)
                 for m in mains:
                     st, err = pl.build(b, root / f'dns{i}', main=m, parameter_mode=False)
                     if err:
@@ -331,6 +358,7 @@ def run(ctx):
             if a != m_:
                 ctx.diverge('multichain:force-history', case_, {'op_index': k, 'impl': a}, {'model': m_}); break
     name_mode_same_file_name(ctx, root)
+    member_names_probe(ctx, root)
     # the recorded K6 witness
     k6_witness(ctx, root)
 
@@ -372,6 +400,49 @@ def name_mode_same_file_name(ctx, root):
                 ctx.fail('a member chain of a name-mode MultiChain has other parameter values than the standalone chain of its config', case,
                          {'member': m, 'member_chain': a, 'standalone': s_})
                 break
+        b.cleanup_module()
+
+
+def member_names_probe(ctx, root):
+    """`MultiChain._prepare` files the member chains under `config.name` and refuses a second config with the same name — also for two
+    different files with one stem (a/m.json, b/m.json) and for a file without a dot (name '') — before that member's chain is built, so an
+    earlier member's construction error wins.  Correspondence with `buildMulti` / `BuildNM.buildMulti` (`mainName`, error `dupChain`)."""
+    from taskchain import MultiChain
+    for k in range(ctx.n(10, 80)):
+        rng = ctx.rng('member-names', k)
+        bad_first = rng.random() < 0.25        # the first member fails on its own (missing required parameter)
+        spec = {'classes': {'K0': {'name': 'up', 'group': '', 'params': [{'name': 'x'}], 'inputs': [], 'kind': 'json', 'run_args': ['x']}},
+                'files': {'p.json': {'tasks': ['K0'], **({} if bad_first else {'x': 1})}, 'q.json': {'tasks': ['K0'], 'x': 2},
+                          'a/m.json': {'uses': ['@cfg/p.json']}, 'b/m.json': {'uses': ['@cfg/q.json']}, 'other.json': {'uses': ['@cfg/q.json as n']},
+                          'multi.json': {'configs': {'u': {'uses': ['@cfg/p.json'], 'main_part': True}, 'v': {'uses': ['@cfg/q.json']}}}},
+                'main': 'a/m.json'}
+        pool = ['a/m.json', 'b/m.json', 'other.json', 'multi.json', 'multi.json#u', 'multi.json#v', 'q.json']
+        mains = [rng.choice(pool) for _ in range(rng.randint(2, 4))]
+        if rng.random() < 0.5:
+            mains.append(rng.choice(mains))            # an exact repetition
+        pmode = bool(k % 2)
+        spec['module'] = gen.fresh_modname()
+        b = pl.materialize(spec, root / f'mn{k}', modname=spec['module'])
+        b.module()
+        case = {'probe': 'member names', 'mains': mains, 'parameter_mode': pmode, 'first_member_fails': bad_first, 'files': spec['files']}
+        ctx.case(case, nontrivial=True)
+        try:
+            cfgs = [pl.make_config(b, root / f'mnd{k}', main=m) for m in mains]
+            names = [c.name for c in cfgs]
+            mc = MultiChain(cfgs, parameter_mode=pmode)
+            impl = {'ok': sorted(mc.chains)}
+        except (ValueError, KeyError, AssertionError) as e:
+            impl = {'error': pl.error_kind(e)}
+        mo = ctx.model.one({**builder.encode(spec, b, mains=[(m, None) for m in mains]), 'op': 'multi' if pmode else 'multi_nm'})
+        model = {'error': mo['error']} if 'error' in mo else {'ok': sorted(set(names))}
+        ctx.count('member-names:' + (impl.get('error') or 'built'))
+        if impl != model:
+            ctx.diverge('multichain:member-names', case, impl, model)
+        # reference: a repeated name is an error, distinct names are not (unless a member fails on its own)
+        if len(set(names)) < len(names) and 'ok' in impl:
+            ctx.fail('a MultiChain was built from two configs with one name: one chain silently replaced the other', case, {'names': names})
+        if len(set(names)) == len(names) and impl.get('error') == 'dup_chain':
+            ctx.fail('member configs with distinct names were refused as duplicates', case, {'names': names})
         b.cleanup_module()
 
 
